@@ -38,10 +38,12 @@
 #include <osmium/osm/way.hpp>
 
 #include <algorithm>
+#include <cerrno>
 #include <limits>
 #include <memory>
 #include <new>
 #include <string>
+#include <sys/wait.h>
 #include <utility>
 #include <vector>
 
@@ -158,7 +160,8 @@ std::string gen_str(vh::Rng& r, bool allow_long = true) {
     if (d < 62) len = static_cast<size_t>(LENS[r.below(sizeof(LENS) / sizeof(LENS[0]))]);
     else if (d < 88) len = static_cast<size_t>(r.range(0, 40));
     else if (d < 99 || !allow_long) len = static_cast<size_t>(r.range(66, 300));
-    else len = r.chance(1, 3) ? osmium::max_osm_string_length : static_cast<size_t>(r.range(301, osmium::max_osm_string_length));   // longer strings are refused (documented)
+    else len = r.chance(1, 3) ? static_cast<size_t>(osmium::max_osm_string_length)   // longer strings are refused (documented)
+                              : static_cast<size_t>(r.range(301, osmium::max_osm_string_length));
     std::string s(len, 'x');
     for (auto& c : s) {
         c = r.below(12) == 0 ? static_cast<char>(r.range(0x80, 0xff)) : static_cast<char>(r.range(0x20, 0x7e));
@@ -791,6 +794,7 @@ class Exec {
     bool cb_set = false;
     size_t cb_max = 0;
     bool failed = false;
+    bool blind = false;
     size_t desc_len = 0;
     size_t opi = 0;
     std::vector<std::pair<uint32_t, uint8_t>> growths;
@@ -813,7 +817,11 @@ class Exec {
     int obj_open = -1;
 
     osmium::builder::Builder* topb() {
-        if (nb) return nb; if (wb) return wb; if (rb) return rb; if (ab) return ab; if (csb) return csb;
+        if (nb) return nb;
+        if (wb) return wb;
+        if (rb) return rb;
+        if (ab) return ab;
+        if (csb) return csb;
         return nullptr;
     }
     void close_sub() {
@@ -846,12 +854,6 @@ class Exec {
         for (size_t i = first; i < committed.size(); ++i) s += committed[i].o->bytes.size();
         return s;
     }
-    size_t pending_bytes() const {
-        size_t s = 0;
-        for (const auto& p : pending) s += p.o->bytes.size();
-        return s;
-    }
-
     void deliver(std::unique_ptr<Buffer> b) {
         delivered_bytes += b->committed();
         delivered.push_back(std::move(b));
@@ -892,9 +894,17 @@ class Exec {
     }
 
     // oracle a+b: visible committed stream == concatenation of the model items
-    bool verify(const char* when) {
+    // `when` is part of the violation key: " after <operation>" if the stream was verified to be intact
+    // right before that operation (drain=false pre-check), empty otherwise (damage done while building).
+    bool verify(const char* when, bool drain = true) {
         if (failed) return false;
-        if (!sync_base()) return false;
+        if (!drain) {
+            blind = mode == M_INT && cur->has_nested_buffers();   // the pre-check cannot see the nested buffers
+        } else if (blind) {
+            when = "";
+            blind = false;
+        }
+        if (drain && !sync_base()) return false;
         std::string exp;
         for (const auto& it : committed) {
             const size_t pos = exp.size();
@@ -903,9 +913,13 @@ class Exec {
         }
         std::string act;
         for (const auto& b : delivered) act.append(reinterpret_cast<const char*>(b->data()), b->committed());
+        if (!drain && mode == M_INT && act.size() + cur->committed() <= exp.size()) {
+            // nested buffers stay where they are: their part of the stream is taken from the model
+            act.append(exp, act.size(), exp.size() - cur->committed() - act.size());
+        }
         act.append(reinterpret_cast<const char*>(cur->data()), cur->committed());
         if (act.size() != exp.size()) {
-            viol(vh::fmt("%s: committed stream length differs from the model %s", MODEN[mode], when),
+            viol(vh::fmt("%s: committed stream length differs from the model%s", MODEN[mode], when),
                  vh::fmt("actual %zu bytes, model %zu bytes (%zu items)", act.size(), exp.size(), committed.size()));
             return false;
         }
@@ -918,17 +932,18 @@ class Exec {
             const MObj* o = committed[k].o;
             const char* by = "a copied item";
             for (const auto& r : o->ranges) if (d - off >= r.lo && d - off < r.hi) { by = OPN[r.code]; break; }
-            viol(vh::fmt("%s: committed bytes differ from the reference image %s; first differing byte was reserved by %s", MODEN[mode], when, by),
+            viol(vh::fmt("%s: committed bytes differ from the reference image%s; first differing byte was reserved by %s", MODEN[mode], when, by),
                  vh::fmt("stream offset %zu = item %zu (%s) + %zu; expected 0x%02x got 0x%02x; item expected=%s got=%s", d, k, TOPN[o->kind], d - off,
                          static_cast<uchar>(exp[d]), static_cast<uchar>(act[d]),
                          vh::hexdump(exp.substr(off, o->bytes.size()), 160).c_str(), vh::hexdump(act.substr(off, o->bytes.size()), 160).c_str()));
             return false;
         }
         if (cur->written() - cur->committed() != model_unc) {
-            viol(vh::fmt("%s: uncommitted byte count differs from the model %s", MODEN[mode], when),
+            viol(vh::fmt("%s: uncommitted byte count differs from the model%s", MODEN[mode], when),
                  vh::fmt("written-committed=%zu model=%zu", cur->written() - cur->committed(), model_unc));
             return false;
         }
+        if (!drain) return true;
         // the library's own iteration over the real (grown) buffers
         size_t items = 0, objects = 0, want_objects = 0;
         auto walk = [&](const Buffer& b) {
@@ -939,7 +954,7 @@ class Exec {
         walk(*cur);
         for (const auto& it : committed) want_objects += it.o->kind <= T_AREA;
         if (items != committed.size() || objects != want_objects) {
-            viol(vh::fmt("%s: item iteration count differs from the model %s", MODEN[mode], when),
+            viol(vh::fmt("%s: item iteration count differs from the model%s", MODEN[mode], when),
                  vh::fmt("items %zu/%zu objects %zu/%zu", items, committed.size(), objects, want_objects));
             return false;
         }
@@ -993,6 +1008,70 @@ class Exec {
     }
 
     const MObj& obj(const Op& op) const { return h.objs[static_cast<size_t>(op.a)]; }
+
+    // Does this action abort the process (library assertion)? Tried in a forked child so that this
+    // process survives. Only used with assertions on, for the two situations in which an exception
+    // documented for add_comment() unwinds through ~ChangesetDiscussionBuilder. The answer is
+    // observed once per process and situation (an ASan fork is expensive) and then reused.
+    template <typename F>
+    static bool aborts_in_child(int& state, F&& action) {
+        if (state != 0) return state == 1;
+        const pid_t pid = ::fork();
+        if (pid < 0) return false;
+        if (pid == 0) {
+            std::signal(SIGABRT, SIG_DFL);
+            const int fd = ::open("/dev/null", O_WRONLY);
+            if (fd >= 0) ::dup2(fd, 2);
+            try { action(); } catch (...) {}
+            ::_exit(0);
+        }
+        int status = 0;
+        while (::waitpid(pid, &status, 0) < 0 && errno == EINTR) {}
+        state = (WIFSIGNALED(status) && WTERMSIG(status) == SIGABRT) ? 1 : 2;
+        vh::count("assert_probes_in_child");
+        return state == 1;
+    }
+
+#ifndef NDEBUG
+    // dry run of the calls add_changeset() makes, in a scratch buffer with `room` bytes: does the first
+    // buffer_is_full come from add_comment() after it reserved the comment struct?
+    static bool attr_changeset_fails_in_comment_user(const MObj& o, size_t room) {
+        using namespace osmium::builder;
+        auto* mem = static_cast<uchar*>(std::malloc(room + 8));
+        auto* scratch = new Buffer{mem, room, 0};
+        ChangesetBuilder* c = nullptr;
+        TagListBuilder* t = nullptr;
+        ChangesetDiscussionBuilder* d = nullptr;
+        bool in_user = false;
+        try {
+            c = new ChangesetBuilder{*scratch};
+            c->set_user(o.user.c_str());
+            t = new TagListBuilder{*scratch, c};
+            for (const auto& tag : o.subs[0].tags) t->add_tag(tag.k.c_str(), tag.v.c_str());
+            delete t;
+            t = nullptr;
+            d = new ChangesetDiscussionBuilder{*scratch, c};
+            for (const auto& cm : o.subs[1].comments) {
+                const size_t w = scratch->written();
+                try {
+                    d->add_comment(osmium::Timestamp{cm.date}, cm.uid, cm.user.c_str());
+                } catch (const osmium::buffer_is_full&) {
+                    in_user = scratch->written() > w;
+                    throw;
+                }
+                d->add_comment_text(cm.text.c_str());
+            }
+        } catch (const osmium::buffer_is_full&) {
+        }
+        if (in_user) return true;   // builders, buffer and memory are leaked on purpose (destroying them may abort)
+        delete d;
+        delete t;
+        delete c;
+        delete scratch;
+        std::free(mem);
+        return false;
+    }
+#endif
 
     void exec_attrs(const Op& op, const MObj& o);
     void exec_attr_obj(const Op& op, const MObj& o);
@@ -1239,7 +1318,7 @@ void Exec::exec_buffer_op(const Op& op) {
             model_unc = 0;
             break;
         case O_CLEAR: {
-            if (!sync_base()) return;
+            if (!verify("")) return;
             const size_t want = committed_bytes_from(n_delivered);
             const size_t r = cur->clear();
             if (r != want) { viol(vh::fmt("%s: clear() does not return the committed size", MODEN[mode]), vh::fmt("returned %zu, model %zu", r, want)); return; }
@@ -1248,7 +1327,7 @@ void Exec::exec_buffer_op(const Op& op) {
             model_unc = 0;
             if (cur->committed() != 0 || cur->written() != 0) { viol(vh::fmt("%s: buffer not empty after clear()", MODEN[mode]), ""); return; }
             vh::count("clear_ops");
-            verify("after clear");
+            verify(" after clear");
             break;
         }
         case O_ADD_BUFFER: {
@@ -1278,6 +1357,7 @@ void Exec::exec_buffer_op(const Op& op) {
         }
         case O_SWAP: {
             if (mode == M_REF || mode == M_CB) break;
+            if (!verify("", false)) return;
             const auto& src = pool->buf->get<const osmium::memory::Item>(pool->off[static_cast<size_t>(op.a)]);
             auto other = std::make_unique<Buffer>(64 + 8 * static_cast<size_t>(op.n),
                                                   mode == M_NO ? Buffer::auto_grow::yes : Buffer::auto_grow::no);
@@ -1302,20 +1382,22 @@ void Exec::exec_buffer_op(const Op& op) {
             own = std::move(other);   // the history continues in the object that received the content
             cur = own.get();
             vh::count("swap_ops");
-            verify("after swap");
+            verify(" after swap");
             break;
         }
         case O_MOVE_CTOR: {
             if (mode == M_REF || mode == M_CB) break;
+            if (!verify("", false)) return;
             auto nbuf = std::make_unique<Buffer>(std::move(*cur));
             own = std::move(nbuf);
             cur = own.get();
             vh::count("move_ops");
-            verify("after move");
+            verify(" after move");
             break;
         }
         case O_MOVE_ASSIGN: {
             if (mode == M_REF || mode == M_CB) break;
+            if (!verify("", false)) return;
             std::unique_ptr<Buffer> nbuf;
             if (op.variant == 0) {
                 nbuf = std::make_unique<Buffer>();
@@ -1327,7 +1409,7 @@ void Exec::exec_buffer_op(const Op& op) {
             own = std::move(nbuf);
             cur = own.get();
             vh::count("move_ops");
-            verify("after move");
+            verify(" after move");
             break;
         }
         case O_SET_REMOVED: {
@@ -1352,6 +1434,7 @@ void Exec::exec_buffer_op(const Op& op) {
         case O_PURGE: {
             if (!sync_base()) return;
             if (!pending.empty() || model_unc != 0) { vh::count("purge_skipped_pending"); break; }
+            if (!verify("")) return;
             bool entities = true;
             for (size_t i = n_delivered; i < committed.size(); ++i) entities = entities && committed[i].o->kind != T_LIST;
             if (!entities) { vh::count("purge_skipped_non_entity"); break; }
@@ -1385,7 +1468,7 @@ void Exec::exec_buffer_op(const Op& op) {
             vh::count("purge_ops");
             vh::count("purge_items_removed", removed);
             if (mode == M_REF && (cur->committed() != newo)) { viol("reference run: committed size after purge differs from the model", ""); return; }
-            verify("after purge_removed");
+            verify(" after purge_removed");
             break;
         }
         case O_GROW: {
@@ -1418,6 +1501,7 @@ void Exec::exec_buffer_op(const Op& op) {
         case O_CB_POSSIBLY: case O_CB_FLUSH: case O_CB_READ: {
             if (mode != M_CB) break;
             if (!pending.empty() || model_unc != 0) break;
+            if (!verify("")) return;
             const size_t have = cur->committed();
             bool want_delivery;
             if (op.code == O_CB_POSSIBLY) { cbuf->possibly_flush(); want_delivery = cb_set && have > cb_max; }
@@ -1434,7 +1518,7 @@ void Exec::exec_buffer_op(const Op& op) {
                 cur = &cbuf->buffer();
                 if (cur->committed() != 0 || cur->written() != 0 || !*cur) { viol("CallbackBuffer: internal buffer not empty after delivery", ""); return; }
                 vh::count("cb_deliveries");
-                verify("after CallbackBuffer delivery");
+                verify(" after CallbackBuffer delivery");
             } else {
                 vh::count("cb_no_delivery");
             }
@@ -1492,6 +1576,21 @@ bool Exec::run() {
         }
         const bool predicted_full = mode == M_NO && adds && (w0 + h.delta[opi] > cur->capacity());
         bool thrown = false;
+#ifndef NDEBUG
+        // add_changeset(buffer, ..., _comments(...)) into a buffer that is too small: if buffer_is_full is thrown
+        // by add_comment() after the comment struct was reserved, it unwinds through ~ChangesetDiscussionBuilder
+        // inside the library. Whether this is the situation is found out by a dry run of the same builder calls
+        // on a scratch buffer with the same room; what then happens is observed once per process in a forked
+        // child. If that aborted, such calls are reported and not executed in this process.
+        static int state_attr = 0;
+        if (predicted_full && op.code == O_ATTR_OBJ && obj(op).kind == T_CS && !obj(op).subs[1].comments.empty() &&
+            attr_changeset_fails_in_comment_user(obj(op), cur->capacity() - w0) &&
+            aborts_in_child(state_attr, [&]() { exec_builder_op(op); })) {
+            viol("assertions on: add_changeset(..., _comments()) aborts (assert !m_comment in ~ChangesetDiscussionBuilder) instead of throwing buffer_is_full",
+                 "observed in a forked child; anywhere else it would be reported as a crash");
+            break;
+        }
+#endif
         try {
             if (is_builder) exec_builder_op(op); else exec_buffer_op(op);
         } catch (const osmium::buffer_is_full&) {
@@ -1510,13 +1609,26 @@ bool Exec::run() {
             vh::count("buffer_is_full_as_predicted");
             vh::cover("buffer_is_full_at", OPN[op.code]);
             if (is_builder) {
+#ifndef NDEBUG
+                static int state_direct = 0;
+                // only when the comment struct was already reserved (the user name did not fit): same situation every time
+                if (op.code == O_COMMENT && cdb && cur->written() > w0 && aborts_in_child(state_direct, [&]() { delete cdb; })) {
+                    // observed in a forked child: the unwinding aborts. Report it here (specific key) instead of
+                    // dying, and abandon this execution: the builders and the buffer are leaked on purpose.
+                    viol("assertions on: ~ChangesetDiscussionBuilder aborts (assert !m_comment) when the builder is destroyed after add_comment() threw",
+                         "add_comment() threw osmium::buffer_is_full (documented); stack unwinding must destroy the builder");
+                    cdb = nullptr; nb = nullptr; wb = nullptr; rb = nullptr; ab = nullptr; csb = nullptr;
+                    (void)own.release();
+                    break;
+                }
+#endif
                 close_sub();
                 close_top();
                 cur->rollback();
                 pending.clear();
                 model_unc = 0;
                 if (op.code != O_ATTR_OBJ) while (h.ops[opi].code != O_CLOSE_OBJ) ++opi;
-                verify("after buffer_is_full and rollback");
+                verify(" after buffer_is_full and rollback");
             } else if (cur->written() != w0 || cur->committed() != cm0) {
                 viol(vh::fmt("auto_grow=no: written()/committed() changed by a refused %s", OPN[op.code]), "");
             }
@@ -1574,7 +1686,7 @@ bool Exec::run() {
         if (topb() || tl || wnl || orb || irb || rml || cdb) viol("harness: builder still open at end of history", "");
         opi = h.ops.size();
         set_desc_op();
-        verify("at end of history");
+        verify("");
     }
     close_sub();
     close_top();
